@@ -288,7 +288,8 @@ def must_reject(pt, acc, rng):
     reset_globals()
     abi = pt.abi
     acc.evaluations += 1
-    kind = rng.choice(["width", "arity_more", "arity_less", "elem", "static_len", "txn_type", "count", "txn_not_dict", "dyn_vs_static", "nested_arity", "bool_len"])
+    kind = rng.choice(["width", "arity_more", "arity_less", "elem", "static_len", "txn_type", "count", "txn_not_dict", "dyn_vs_static", "nested_arity", "bool_len",
+                       "static_for_dyn", "address_for_bytes", "staticbytes_for_bytes", "static_for_dyn_in_tuple", "static_for_string"])
     x64, x32, s = abi.Uint64(), abi.Uint32(), abi.String()
     t2 = abi.make(abi.Tuple2[abi.Uint64, abi.Bool])
     t3 = abi.make(abi.Tuple3[abi.Uint64, abi.Bool, abi.Uint8])
@@ -304,6 +305,12 @@ def must_reject(pt, acc, rng):
         "txn_not_dict": ("m(pay)void", [x64]),
         "dyn_vs_static": ("m(uint64[2])void", [abi.make(abi.DynamicArray[abi.Uint64])]),
         "nested_arity": ("m((uint64,(bool,bool))[])void", [abi.make(abi.DynamicArray[abi.Tuple2[abi.Uint64, abi.Tuple3[abi.Bool, abi.Bool, abi.Bool]]])]),
+        # fixed-length arrays where a variable-length array is expected (the encoding would lack the length prefix)
+        "static_for_dyn": ("m(uint64[])void", [abi.make(abi.StaticArray[abi.Uint64, __import__("typing").Literal[3]])]),
+        "address_for_bytes": ("m(byte[])void", [abi.Address()]),
+        "staticbytes_for_bytes": ("m(byte[])void", [abi.make(abi.StaticBytes[__import__("typing").Literal[4]])]),
+        "static_for_dyn_in_tuple": ("m((uint64,uint16[]))void", [abi.make(abi.Tuple2[abi.Uint64, abi.StaticArray[abi.Uint16, __import__("typing").Literal[2]]])]),
+        "static_for_string": ("m(string)void", [abi.make(abi.StaticArray[abi.Byte, __import__("typing").Literal[5]])]),
         "bool_len": ("m(bool[16])void", [abi.make(abi.StaticArray[abi.Bool, __import__("typing").Literal[9]])]),
     }
     sig, args = cases[kind]
